@@ -301,6 +301,80 @@ func rulesC17(p *Prog, r *Report) {
 		}
 	}
 
+	// R17.6 consumers outside the market module ----------------------------------------
+	{
+		mods := map[string]bool{}
+		for _, fn := range p.Funcs {
+			if m := moduleOf(fn); m != "" && m != "market" {
+				mods[m] = true
+			}
+		}
+		priceDisciplineX(p, r, "R17.6", mods, 4, true)
+	}
+
+	// R17.5 the mean is narrowed, not the sum ---------------------------------------------
+	r.Rule("R17.5", "the wide window sum is divided before it is narrowed to 64 bits", 1)
+	{
+		calc := p.MustFunc("x/market/keeper.Keeper.CalculateTwa")
+		// loop-carried accumulators of a non-basic (wide) type
+		acc := map[ssa.Value]bool{}
+		for _, l := range loopsOf(calc) {
+			for _, in := range l.Head.Instrs {
+				if ph, ok := in.(*ssa.Phi); ok {
+					if _, isBasic := ph.Type().Underlying().(*types.Basic); !isBasic {
+						acc[ph] = true
+					}
+				}
+			}
+		}
+		n := 0
+		for _, c := range calls(calc) {
+			call, ok := c.(*ssa.Call)
+			if !ok || len(call.Call.Args) != 1 {
+				continue
+			}
+			nm := calleeShortName(&call.Call)
+			if nm != "Uint64" && nm != "Int64" {
+				continue
+			}
+			// walk the receiver back to the accumulator; a Quo* call on the way is the division
+			divided, fromAcc := false, false
+			seen := map[ssa.Value]bool{}
+			var walk func(v ssa.Value, div bool, d int)
+			walk = func(v ssa.Value, div bool, d int) {
+				if v == nil || seen[v] || d > 10 {
+					return
+				}
+				seen[v] = true
+				if acc[v] {
+					fromAcc = true
+					if div {
+						divided = true
+					} else {
+						divided = false
+					}
+					return
+				}
+				if cc, ok := v.(*ssa.Call); ok && len(cc.Call.Args) > 0 {
+					walk(cc.Call.Args[0], div || strings.HasPrefix(calleeShortName(&cc.Call), "Quo"), d+1)
+				}
+			}
+			walk(call.Call.Args[0], false, 0)
+			if !fromAcc {
+				continue
+			}
+			n++
+			r.Instance("R17.5")
+			r.FuncsSeen[fname(calc)] = true
+			construct := fmt.Sprintf("%s narrowing #%d", fname(calc), n)
+			if divided {
+				r.OK("R17.5", construct, "the quotient is narrowed", p.instrPos(c))
+			} else {
+				r.Fail("R17.5", construct, "the window sum itself is narrowed to 64 bits before the division: a window of large samples overflows (panic or wrap) although its mean fits", p.instrPos(c), nil)
+			}
+		}
+	}
+
 	// R17.4 ------------------------------------------------------------------------
 	r.Rule("R17.4", "the window sum is not accumulated in a fixed-width integer", 1)
 	calcTwa := p.MustFunc("x/market/keeper.Keeper.CalculateTwa")
